@@ -379,7 +379,7 @@ def finish(ctx: Ctx, level_text_trusted: list[str], rule: str, checker_cmd: str)
         lines.append(f"VIOLATION property={ctx.pid} replay={path} no-failing-input-found")
         rc = 1
     for b in ctx.broken:
-        print(f"BROKEN {b['kind']}: {b['name']}")
+        print(f"BROKEN {b['kind']}: {b['name'][:400]}")
     ev = {
         "property_id": ctx.pid,
         "tier": ctx.tier,
